@@ -35,6 +35,6 @@ static struct nv_lstep nv_lstep_make(const struct nv_state* s, const struct nv_v
 static double nv_fmin(double a, double b) { return (b < a) ? b : a; }          /* std::min */
 static double nv_fmax(double a, double b) { return (a < b) ? b : a; }          /* std::max */
 static double nv_fclamp(double v, double lo, double hi) { return (v < lo) ? lo : ((hi < v) ? hi : v); }  /* std::clamp */
-static double nv_fabs(double a) { return __builtin_fabs(a); }
+static double nv_fabs(double a) { return __CPROVER_fabs(a); }
 static _Bool  nv_isfinite(double a) { return NV_FINITE(a); }
 #endif
